@@ -122,7 +122,13 @@ def gen_scenario(r, master_types):
     kex = r.sample(KEX_POOL, r.randint(1, 5))
     if r.random() < 0.5 and SHA256 not in kex:
         kex.insert(r.randrange(len(kex) + 1), SHA256)
+    if r.random() < 0.25:      # repeated names (a server is free to list a name several times): the probes go by the tool's own tables, not by occurrences
+        for _ in range(r.randint(1, 4)):
+            kex.insert(r.randrange(len(kex) + 1), r.choice([SHA256, SHA1, r.choice(kex)]))
     keys = r.sample(master_types, r.randint(1, 5))
+    if r.random() < 0.2:
+        for _ in range(r.randint(1, 3)):
+            keys.insert(r.randrange(len(keys) + 1), r.choice(keys))
     if r.random() < 0.3:
         keys.insert(r.randrange(len(keys) + 1), 'unknown-key-type@example.org')
     if r.random() < 0.4:
@@ -370,7 +376,8 @@ def run(ctx):
              {'kex': ['curve25519-sha256', SHA256], 'keys': ['ssh-ed25519', 'ssh-rsa'], 'openssh': True, 'plan': ['X', 'X', 'c'], 'style': 'roundup', 'M': [8192]},
              {'kex': ['curve25519-sha256', SHA1, SHA256], 'keys': ['ssh-ed25519'], 'openssh': False, 'plan': ['X', 'X', 'g', 'b', 'X', 'X', 'X', 'X', 'X', 'k'], 'style': 'strict', 'M': []},
              {'kex': ['curve25519-sha256'], 'keys': ['ssh-rsa', 'ssh-ed25519', 'ecdsa-sha2-nistp256', 'ssh-ed448'], 'openssh': True, 'plan': ['s', 'n', 's', 'n'], 'style': 'strict', 'M': []},
-             {'kex': [SHA256], 'keys': ['rsa-sha2-512', 'ssh-ed25519'], 'openssh': True, 'plan': ['n', 's', 'n', 's', 'n', 's'], 'style': 'openssh', 'M': [2048, 4096]}]
+             {'kex': [SHA256], 'keys': ['rsa-sha2-512', 'ssh-ed25519'], 'openssh': True, 'plan': ['n', 's', 'n', 's', 'n', 's'], 'style': 'openssh', 'M': [2048, 4096]},
+             {'kex': [SHA256] * 6 + ['curve25519-sha256'] + [SHA1] * 3, 'keys': ['ssh-ed25519', 'ssh-ed25519', 'ssh-rsa', 'ssh-ed25519'], 'openssh': False, 'plan': [], 'style': 'strict', 'M': [4096]}]
     for _ in range(ctx.scale(120, 2500)):
         scs.append(gen_scenario(r, master_types))
     for sc in fixed + scs:
